@@ -3,9 +3,13 @@ package main
 // Oracle C17: every query, on both routes, returns exactly the stored state.
 // In-block: the gRPC server methods and the legacy querier are called directly on the block's context.
 // After Commit: the real BaseApp.Query entry point on both routes (/irismod.service.Query/* and custom/service/*).
+// Truth comes from the raw-store snapshot. gRPC answers are compared as protobuf records; legacy answers as
+// JSON documents against the amino-JSON rendering of the same expected records (so that addresses of any length
+// can be compared without going through the SDK's 20-byte address parser).
 
 import (
 	"bytes"
+	"encoding/json"
 	"fmt"
 	"sort"
 
@@ -25,26 +29,55 @@ func init() {
 }
 
 type qcase struct {
-	name       string
+	name, desc string
 	grpcPath   string
 	grpcReq    proto.Message
 	grpcResp   func() proto.Message
-	grpcCanon  func(proto.Message) []string
+	grpcItems  func(proto.Message) []interface{}
 	direct     func(k keeper.Keeper, ctx sdk.Context) (proto.Message, error)
 	legacyPath string
 	legacyPar  interface{}
-	legacyCanon func(cdc *codec.LegacyAmino, bz []byte) ([]string, error)
-	want       []string // nil = an error is expected
+	legacyList bool
+	want       []interface{} // expected records (typed values)
 	wantErr    bool
-	desc       string
+	addrLen    int
 }
 
-func pm(m interface{ Marshal() ([]byte, error) }) string {
+type marshaler interface{ Marshal() ([]byte, error) }
+
+func pm(m marshaler) string {
 	bz, err := m.Marshal()
 	if err != nil {
 		return "MARSHAL-ERR"
 	}
 	return string(bz)
+}
+
+// canonItem: canonical string of a record returned by the gRPC route / expected.
+func canonItem(v interface{}) string {
+	switch t := v.(type) {
+	case marshaler:
+		return pm(t)
+	case sdk.AccAddress:
+		return "addr:" + hx(t)
+	case sdk.Coins:
+		return "coins:" + t.String()
+	case string:
+		return "str:" + t
+	}
+	return fmt.Sprintf("?%T", v)
+}
+
+// canonJSON: key-sorted compact JSON.
+func canonJSON(bz []byte) (string, error) {
+	dec := json.NewDecoder(bytes.NewReader(bz))
+	dec.UseNumber()
+	var v interface{}
+	if err := dec.Decode(&v); err != nil {
+		return "", err
+	}
+	out, err := json.Marshal(v)
+	return string(out), err
 }
 
 func buildRequest(s *Snap, rid string) *types.Request {
@@ -68,11 +101,12 @@ func sortedCopy(s []string) []string {
 	return o
 }
 
+func one(v interface{}) []interface{} { return []interface{}{v} }
+
 // queryCases: arguments drawn from the existing and non-existing subjects of the state.
 func (x *Exec) queryCases(s *Snap) []qcase {
 	var cs []qcase
-	names := append(sortedDefNames(s), "nosuch", "a")
-	names = dedup(names)
+	names := dedup(append(sortedDefNames(s), "nosuch", "a"))
 	provSet := map[string]bool{hx([]byte{0x01}): true, hx(acctAddr(0)): true}
 	ownerSet := map[string]bool{hx(acctAddr(1)): true}
 	for _, bk := range s.BindingKeys() {
@@ -85,8 +119,6 @@ func (x *Exec) queryCases(s *Snap) []qcase {
 	}
 	provs := sortedKeys(provSet)
 	owners := sortedKeys(ownerSet)
-
-	// limit the cross products deterministically
 	limit := func(l []string, n int, salt int) []string {
 		if len(l) <= n {
 			return l
@@ -98,25 +130,19 @@ func (x *Exec) queryCases(s *Snap) []qcase {
 		return dedup(out)
 	}
 	salt := int(s.Height % 1000)
+	wrap := sdk.WrapSDKContext
 
 	for _, n := range names {
 		n := n
 		c := qcase{name: "definition", desc: n, grpcPath: "/irismod.service.Query/Definition", grpcReq: &types.QueryDefinitionRequest{ServiceName: n},
 			grpcResp:  func() proto.Message { return &types.QueryDefinitionResponse{} },
-			grpcCanon: func(m proto.Message) []string { return []string{pm(m.(*types.QueryDefinitionResponse).ServiceDefinition)} },
+			grpcItems: func(m proto.Message) []interface{} { return one(m.(*types.QueryDefinitionResponse).ServiceDefinition) },
 			direct: func(k keeper.Keeper, ctx sdk.Context) (proto.Message, error) {
-				return k.Definition(sdk.WrapSDKContext(ctx), &types.QueryDefinitionRequest{ServiceName: n})
+				return k.Definition(wrap(ctx), &types.QueryDefinitionRequest{ServiceName: n})
 			},
-			legacyPath: types.QueryDefinition, legacyPar: types.QueryDefinitionParams{ServiceName: n},
-			legacyCanon: func(cdc *codec.LegacyAmino, bz []byte) ([]string, error) {
-				var d types.ServiceDefinition
-				if err := cdc.UnmarshalJSON(bz, &d); err != nil {
-					return nil, err
-				}
-				return []string{pm(&d)}, nil
-			}}
+			legacyPath: types.QueryDefinition, legacyPar: types.QueryDefinitionParams{ServiceName: n}}
 		if d, ok := s.Defs[n]; ok {
-			c.want = []string{pm(d)}
+			c.want = one(d)
 		} else {
 			c.wantErr = true
 		}
@@ -126,47 +152,38 @@ func (x *Exec) queryCases(s *Snap) []qcase {
 		for _, ph := range limit(provs, 4, salt) {
 			n, ph := n, ph
 			pb, _ := hexDecode(ph)
-			c := qcase{name: "binding", desc: n + "/" + ph, grpcPath: "/irismod.service.Query/Binding", grpcReq: &types.QueryBindingRequest{ServiceName: n, Provider: pb},
+			c := qcase{name: "binding", desc: n + "/" + ph, addrLen: len(pb), grpcPath: "/irismod.service.Query/Binding", grpcReq: &types.QueryBindingRequest{ServiceName: n, Provider: pb},
 				grpcResp:  func() proto.Message { return &types.QueryBindingResponse{} },
-				grpcCanon: func(m proto.Message) []string { return []string{pm(m.(*types.QueryBindingResponse).ServiceBinding)} },
+				grpcItems: func(m proto.Message) []interface{} { return one(m.(*types.QueryBindingResponse).ServiceBinding) },
 				direct: func(k keeper.Keeper, ctx sdk.Context) (proto.Message, error) {
-					return k.Binding(sdk.WrapSDKContext(ctx), &types.QueryBindingRequest{ServiceName: n, Provider: pb})
+					return k.Binding(wrap(ctx), &types.QueryBindingRequest{ServiceName: n, Provider: pb})
 				},
-				legacyPath: types.QueryBinding, legacyPar: types.QueryBindingParams{ServiceName: n, Provider: pb},
-				legacyCanon: func(cdc *codec.LegacyAmino, bz []byte) ([]string, error) {
-					var d types.ServiceBinding
-					if err := cdc.UnmarshalJSON(bz, &d); err != nil {
-						return nil, err
-					}
-					return []string{pm(&d)}, nil
-				}}
+				legacyPath: types.QueryBinding, legacyPar: types.QueryBindingParams{ServiceName: n, Provider: pb}}
 			if b, ok := s.Bindings[bkey(n, pb)]; ok {
-				c.want = []string{pm(b)}
+				c.want = one(b)
 			} else {
 				c.wantErr = true
 			}
 			cs = append(cs, c)
 
-			// pending requests of a binding
-			c2 := qcase{name: "requests", desc: n + "/" + ph, grpcPath: "/irismod.service.Query/Requests", grpcReq: &types.QueryRequestsRequest{ServiceName: n, Provider: pb},
+			c2 := qcase{name: "requests", desc: n + "/" + ph, addrLen: len(pb), legacyList: true, grpcPath: "/irismod.service.Query/Requests", grpcReq: &types.QueryRequestsRequest{ServiceName: n, Provider: pb},
 				grpcResp: func() proto.Message { return &types.QueryRequestsResponse{} },
-				grpcCanon: func(m proto.Message) []string {
-					var out []string
+				grpcItems: func(m proto.Message) []interface{} {
+					var out []interface{}
 					for _, q := range m.(*types.QueryRequestsResponse).Requests {
-						out = append(out, pm(q))
+						out = append(out, q)
 					}
 					return out
 				},
 				direct: func(k keeper.Keeper, ctx sdk.Context) (proto.Message, error) {
-					return k.Requests(sdk.WrapSDKContext(ctx), &types.QueryRequestsRequest{ServiceName: n, Provider: pb})
+					return k.Requests(wrap(ctx), &types.QueryRequestsRequest{ServiceName: n, Provider: pb})
 				},
-				legacyPath: types.QueryRequests, legacyPar: types.QueryRequestsParams{ServiceName: n, Provider: pb},
-				legacyCanon: canonRequests}
+				legacyPath: types.QueryRequests, legacyPar: types.QueryRequestsParams{ServiceName: n, Provider: pb}}
 			bech := sdk.AccAddress(pb).String()
-			c2.want = []string{}
+			c2.want = []interface{}{}
 			for _, a := range s.Active14 {
 				if a.Svc == n && a.Prov == bech {
-					c2.want = append(c2.want, pm(buildRequest(s, a.ReqID)))
+					c2.want = append(c2.want, buildRequest(s, a.ReqID))
 				}
 			}
 			cs = append(cs, c2)
@@ -174,38 +191,27 @@ func (x *Exec) queryCases(s *Snap) []qcase {
 		for _, oh := range append(limit(owners, 3, salt), "") {
 			n, oh := n, oh
 			ob, _ := hexDecode(oh)
-			if oh != "" && len(ob) != 20 {
-				continue
-			}
-			c := qcase{name: "bindings", desc: n + "/" + oh, grpcPath: "/irismod.service.Query/Bindings", grpcReq: &types.QueryBindingsRequest{ServiceName: n, Owner: ob},
+			c := qcase{name: "bindings", desc: n + "/" + oh, addrLen: len(ob), legacyList: true, grpcPath: "/irismod.service.Query/Bindings", grpcReq: &types.QueryBindingsRequest{ServiceName: n, Owner: ob},
 				grpcResp: func() proto.Message { return &types.QueryBindingsResponse{} },
-				grpcCanon: func(m proto.Message) []string {
-					var out []string
+				grpcItems: func(m proto.Message) []interface{} {
+					var out []interface{}
 					for _, b := range m.(*types.QueryBindingsResponse).ServiceBindings {
-						out = append(out, pm(b))
+						out = append(out, b)
 					}
 					return out
 				},
 				direct: func(k keeper.Keeper, ctx sdk.Context) (proto.Message, error) {
-					return k.Bindings(sdk.WrapSDKContext(ctx), &types.QueryBindingsRequest{ServiceName: n, Owner: ob})
+					return k.Bindings(wrap(ctx), &types.QueryBindingsRequest{ServiceName: n, Owner: ob})
 				},
-				legacyPath: types.QueryBindings, legacyPar: types.QueryBindingsParams{ServiceName: n, Owner: ob},
-				legacyCanon: func(cdc *codec.LegacyAmino, bz []byte) ([]string, error) {
-					var d []*types.ServiceBinding
-					if err := cdc.UnmarshalJSON(bz, &d); err != nil {
-						return nil, err
-					}
-					var out []string
-					for _, b := range d {
-						out = append(out, pm(b))
-					}
-					return out, nil
-				}}
-			c.want = []string{}
+				legacyPath: types.QueryBindings, legacyPar: types.QueryBindingsParams{ServiceName: n, Owner: ob}}
+			if oh != "" && len(ob) != 20 {
+				continue // owners sign, hence are 20 bytes (H4)
+			}
+			c.want = []interface{}{}
 			for _, bk := range s.BindingKeys() {
 				b := s.Bindings[bk]
 				if b.ServiceName == n && (oh == "" || bytes.Equal(b.Owner, ob)) {
-					c.want = append(c.want, pm(b))
+					c.want = append(c.want, b)
 				}
 			}
 			cs = append(cs, c)
@@ -214,50 +220,35 @@ func (x *Exec) queryCases(s *Snap) []qcase {
 	for _, oh := range limit(owners, 4, salt) {
 		oh := oh
 		ob, _ := hexDecode(oh)
-		c := qcase{name: "withdraw_address", desc: oh, grpcPath: "/irismod.service.Query/WithdrawAddress", grpcReq: &types.QueryWithdrawAddressRequest{Owner: ob},
+		c := qcase{name: "withdraw_address", desc: oh, addrLen: len(ob), grpcPath: "/irismod.service.Query/WithdrawAddress", grpcReq: &types.QueryWithdrawAddressRequest{Owner: ob},
 			grpcResp:  func() proto.Message { return &types.QueryWithdrawAddressResponse{} },
-			grpcCanon: func(m proto.Message) []string { return []string{hx(m.(*types.QueryWithdrawAddressResponse).WithdrawAddress)} },
+			grpcItems: func(m proto.Message) []interface{} { return one(m.(*types.QueryWithdrawAddressResponse).WithdrawAddress) },
 			direct: func(k keeper.Keeper, ctx sdk.Context) (proto.Message, error) {
-				return k.WithdrawAddress(sdk.WrapSDKContext(ctx), &types.QueryWithdrawAddressRequest{Owner: ob})
+				return k.WithdrawAddress(wrap(ctx), &types.QueryWithdrawAddressRequest{Owner: ob})
 			},
-			legacyPath: types.QueryWithdrawAddress, legacyPar: types.QueryWithdrawAddressParams{Owner: ob},
-			legacyCanon: func(cdc *codec.LegacyAmino, bz []byte) ([]string, error) {
-				var a sdk.AccAddress
-				if err := cdc.UnmarshalJSON(bz, &a); err != nil {
-					return nil, err
-				}
-				return []string{hx(a)}, nil
-			}}
+			legacyPath: types.QueryWithdrawAddress, legacyPar: types.QueryWithdrawAddressParams{Owner: ob}}
 		if w, ok := s.Withdraw[oh]; ok {
-			c.want = []string{hx(w)}
+			c.want = one(sdk.AccAddress(w))
 		} else {
-			c.want = []string{oh}
+			c.want = one(sdk.AccAddress(ob))
 		}
 		cs = append(cs, c)
 	}
 	for _, ph := range limit(provs, 5, salt) {
 		ph := ph
 		pb, _ := hexDecode(ph)
-		c := qcase{name: "earned_fees", desc: ph, grpcPath: "/irismod.service.Query/EarnedFees", grpcReq: &types.QueryEarnedFeesRequest{Provider: pb},
+		c := qcase{name: "earned_fees", desc: ph, addrLen: len(pb), grpcPath: "/irismod.service.Query/EarnedFees", grpcReq: &types.QueryEarnedFeesRequest{Provider: pb},
 			grpcResp:  func() proto.Message { return &types.QueryEarnedFeesResponse{} },
-			grpcCanon: func(m proto.Message) []string { return []string{m.(*types.QueryEarnedFeesResponse).Fees.String()} },
+			grpcItems: func(m proto.Message) []interface{} { return one(m.(*types.QueryEarnedFeesResponse).Fees) },
 			direct: func(k keeper.Keeper, ctx sdk.Context) (proto.Message, error) {
-				return k.EarnedFees(sdk.WrapSDKContext(ctx), &types.QueryEarnedFeesRequest{Provider: pb})
+				return k.EarnedFees(wrap(ctx), &types.QueryEarnedFeesRequest{Provider: pb})
 			},
-			legacyPath: types.QueryEarnedFees, legacyPar: types.QueryEarnedFeesParams{Provider: pb},
-			legacyCanon: func(cdc *codec.LegacyAmino, bz []byte) ([]string, error) {
-				var f sdk.Coins
-				if err := cdc.UnmarshalJSON(bz, &f); err != nil {
-					return nil, err
-				}
-				return []string{f.String()}, nil
-			}}
-		amt := s.EarnedOf(pb)
-		if amt > 0 {
-			c.want = []string{fmt.Sprintf("%dstake", amt)}
-		} else {
-			c.want = []string{""}
+			legacyPath: types.QueryEarnedFees, legacyPar: types.QueryEarnedFeesParams{Provider: pb}}
+		fees := sdk.NewCoins()
+		if amt := s.EarnedOf(pb); amt > 0 {
+			fees = sdk.NewCoins(sdk.NewCoin("stake", sdk.NewInt(amt)))
 		}
+		c.want = one(fees)
 		cs = append(cs, c)
 	}
 	ctxIDs := append(limit(s.CtxIDs(), 4, salt), hx(bytes.Repeat([]byte{0x42}, 40)))
@@ -266,22 +257,15 @@ func (x *Exec) queryCases(s *Snap) []qcase {
 		cb, _ := hexDecode(cid)
 		c := qcase{name: "context", desc: cid[:12], grpcPath: "/irismod.service.Query/RequestContext", grpcReq: &types.QueryRequestContextRequest{RequestContextId: cb},
 			grpcResp:  func() proto.Message { return &types.QueryRequestContextResponse{} },
-			grpcCanon: func(m proto.Message) []string { return []string{pm(m.(*types.QueryRequestContextResponse).RequestContext)} },
+			grpcItems: func(m proto.Message) []interface{} { return one(m.(*types.QueryRequestContextResponse).RequestContext) },
 			direct: func(k keeper.Keeper, ctx sdk.Context) (proto.Message, error) {
-				return k.RequestContext(sdk.WrapSDKContext(ctx), &types.QueryRequestContextRequest{RequestContextId: cb})
+				return k.RequestContext(wrap(ctx), &types.QueryRequestContextRequest{RequestContextId: cb})
 			},
-			legacyPath: types.QueryRequestContext, legacyPar: types.QueryRequestContextParams{RequestContextID: cb},
-			legacyCanon: func(cdc *codec.LegacyAmino, bz []byte) ([]string, error) {
-				var d types.RequestContext
-				if err := cdc.UnmarshalJSON(bz, &d); err != nil {
-					return nil, err
-				}
-				return []string{pm(&d)}, nil
-			}}
+			legacyPath: types.QueryRequestContext, legacyPar: types.QueryRequestContextParams{RequestContextID: cb}}
 		if rc, ok := s.Ctx[cid]; ok {
-			c.want = []string{pm(rc)}
+			c.want = one(rc)
 		} else {
-			c.want = []string{pm(&types.RequestContext{})}
+			c.want = one(&types.RequestContext{})
 		}
 		cs = append(cs, c)
 		var batches []uint64
@@ -296,54 +280,42 @@ func (x *Exec) queryCases(s *Snap) []qcase {
 		for _, batch := range batches {
 			batch := batch
 			reqs, resps := batchRecords(s, cid, batch)
-			c1 := qcase{name: "requests_by_ctx", desc: fmt.Sprintf("%s/%d", cid[:12], batch), grpcPath: "/irismod.service.Query/RequestsByReqCtx",
+			c1 := qcase{name: "requests_by_ctx", desc: fmt.Sprintf("%s/%d", cid[:12], batch), legacyList: true, grpcPath: "/irismod.service.Query/RequestsByReqCtx",
 				grpcReq:  &types.QueryRequestsByReqCtxRequest{RequestContextId: cb, BatchCounter: batch},
 				grpcResp: func() proto.Message { return &types.QueryRequestsByReqCtxResponse{} },
-				grpcCanon: func(m proto.Message) []string {
-					var out []string
+				grpcItems: func(m proto.Message) []interface{} {
+					var out []interface{}
 					for _, q := range m.(*types.QueryRequestsByReqCtxResponse).Requests {
-						out = append(out, pm(q))
+						out = append(out, q)
 					}
 					return out
 				},
 				direct: func(k keeper.Keeper, ctx sdk.Context) (proto.Message, error) {
-					return k.RequestsByReqCtx(sdk.WrapSDKContext(ctx), &types.QueryRequestsByReqCtxRequest{RequestContextId: cb, BatchCounter: batch})
+					return k.RequestsByReqCtx(wrap(ctx), &types.QueryRequestsByReqCtxRequest{RequestContextId: cb, BatchCounter: batch})
 				},
-				legacyPath: types.QueryRequestsByReqCtx, legacyPar: types.QueryRequestsByReqCtxParams{RequestContextID: cb, BatchCounter: batch},
-				legacyCanon: canonRequests}
-			c1.want = []string{}
+				legacyPath: types.QueryRequestsByReqCtx, legacyPar: types.QueryRequestsByReqCtxParams{RequestContextID: cb, BatchCounter: batch}}
+			c1.want = []interface{}{}
 			for _, rid := range reqs {
-				c1.want = append(c1.want, pm(buildRequest(s, rid)))
+				c1.want = append(c1.want, buildRequest(s, rid))
 			}
 			cs = append(cs, c1)
-			c2 := qcase{name: "responses", desc: fmt.Sprintf("%s/%d", cid[:12], batch), grpcPath: "/irismod.service.Query/Responses",
+			c2 := qcase{name: "responses", desc: fmt.Sprintf("%s/%d", cid[:12], batch), legacyList: true, grpcPath: "/irismod.service.Query/Responses",
 				grpcReq:  &types.QueryResponsesRequest{RequestContextId: cb, BatchCounter: batch},
 				grpcResp: func() proto.Message { return &types.QueryResponsesResponse{} },
-				grpcCanon: func(m proto.Message) []string {
-					var out []string
+				grpcItems: func(m proto.Message) []interface{} {
+					var out []interface{}
 					for _, q := range m.(*types.QueryResponsesResponse).Responses {
-						out = append(out, pm(q))
+						out = append(out, q)
 					}
 					return out
 				},
 				direct: func(k keeper.Keeper, ctx sdk.Context) (proto.Message, error) {
-					return k.Responses(sdk.WrapSDKContext(ctx), &types.QueryResponsesRequest{RequestContextId: cb, BatchCounter: batch})
+					return k.Responses(wrap(ctx), &types.QueryResponsesRequest{RequestContextId: cb, BatchCounter: batch})
 				},
-				legacyPath: types.QueryResponses, legacyPar: types.QueryResponsesParams{RequestContextID: cb, BatchCounter: batch},
-				legacyCanon: func(cdc *codec.LegacyAmino, bz []byte) ([]string, error) {
-					var d []types.Response
-					if err := cdc.UnmarshalJSON(bz, &d); err != nil {
-						return nil, err
-					}
-					var out []string
-					for i := range d {
-						out = append(out, pm(&d[i]))
-					}
-					return out, nil
-				}}
-			c2.want = []string{}
+				legacyPath: types.QueryResponses, legacyPar: types.QueryResponsesParams{RequestContextID: cb, BatchCounter: batch}}
+			c2.want = []interface{}{}
 			for _, rid := range resps {
-				c2.want = append(c2.want, pm(s.Resp[rid]))
+				c2.want = append(c2.want, s.Resp[rid])
 			}
 			cs = append(cs, c2)
 		}
@@ -354,98 +326,56 @@ func (x *Exec) queryCases(s *Snap) []qcase {
 		rb, _ := hexDecode(rid)
 		c := qcase{name: "request", desc: rid[:12], grpcPath: "/irismod.service.Query/Request", grpcReq: &types.QueryRequestRequest{RequestId: rb},
 			grpcResp:  func() proto.Message { return &types.QueryRequestResponse{} },
-			grpcCanon: func(m proto.Message) []string { return []string{pm(m.(*types.QueryRequestResponse).Request)} },
+			grpcItems: func(m proto.Message) []interface{} { return one(m.(*types.QueryRequestResponse).Request) },
 			direct: func(k keeper.Keeper, ctx sdk.Context) (proto.Message, error) {
-				return k.Request(sdk.WrapSDKContext(ctx), &types.QueryRequestRequest{RequestId: rb})
+				return k.Request(wrap(ctx), &types.QueryRequestRequest{RequestId: rb})
 			},
-			legacyPath: types.QueryRequest, legacyPar: types.QueryRequestParams{RequestID: rb},
-			legacyCanon: func(cdc *codec.LegacyAmino, bz []byte) ([]string, error) {
-				var d types.Request
-				if err := cdc.UnmarshalJSON(bz, &d); err != nil {
-					return nil, err
-				}
-				return []string{pm(&d)}, nil
-			}}
-		c.want = []string{pm(buildRequest(s, rid))}
+			legacyPath: types.QueryRequest, legacyPar: types.QueryRequestParams{RequestID: rb}}
+		c.want = one(buildRequest(s, rid))
 		cs = append(cs, c)
 		c2 := qcase{name: "response", desc: rid[:12], grpcPath: "/irismod.service.Query/Response", grpcReq: &types.QueryResponseRequest{RequestId: rb},
 			grpcResp:  func() proto.Message { return &types.QueryResponseResponse{} },
-			grpcCanon: func(m proto.Message) []string { return []string{pm(m.(*types.QueryResponseResponse).Response)} },
+			grpcItems: func(m proto.Message) []interface{} { return one(m.(*types.QueryResponseResponse).Response) },
 			direct: func(k keeper.Keeper, ctx sdk.Context) (proto.Message, error) {
-				return k.Response(sdk.WrapSDKContext(ctx), &types.QueryResponseRequest{RequestId: rb})
+				return k.Response(wrap(ctx), &types.QueryResponseRequest{RequestId: rb})
 			},
-			legacyPath: types.QueryResponse, legacyPar: types.QueryResponseParams{RequestID: tmbytes.HexBytes(rb)},
-			legacyCanon: func(cdc *codec.LegacyAmino, bz []byte) ([]string, error) {
-				var d types.Response
-				if err := cdc.UnmarshalJSON(bz, &d); err != nil {
-					return nil, err
-				}
-				return []string{pm(&d)}, nil
-			}}
+			legacyPath: types.QueryResponse, legacyPar: types.QueryResponseParams{RequestID: tmbytes.HexBytes(rb)}}
 		if p, ok := s.Resp[rid]; ok {
-			c2.want = []string{pm(p)}
+			c2.want = one(p)
 		} else {
-			c2.want = []string{pm(&types.Response{})}
+			c2.want = one(&types.Response{})
 		}
 		cs = append(cs, c2)
 	}
-	// parameters, schema
+	pp := s.Params
 	pc := qcase{name: "params", grpcPath: "/irismod.service.Query/Params", grpcReq: &types.QueryParamsRequest{},
 		grpcResp:  func() proto.Message { return &types.QueryParamsResponse{} },
-		grpcCanon: func(m proto.Message) []string { p := m.(*types.QueryParamsResponse).Params; return []string{pm(&p)} },
+		grpcItems: func(m proto.Message) []interface{} { p := m.(*types.QueryParamsResponse).Params; return one(&p) },
 		direct: func(k keeper.Keeper, ctx sdk.Context) (proto.Message, error) {
-			return k.Params(sdk.WrapSDKContext(ctx), &types.QueryParamsRequest{})
+			return k.Params(wrap(ctx), &types.QueryParamsRequest{})
 		},
-		legacyPath: types.QueryParameters, legacyPar: nil,
-		legacyCanon: func(cdc *codec.LegacyAmino, bz []byte) ([]string, error) {
-			var d types.Params
-			if err := cdc.UnmarshalJSON(bz, &d); err != nil {
-				return nil, err
-			}
-			return []string{pm(&d)}, nil
-		}}
-	pp := s.Params
-	pc.want = []string{pm(&pp)}
+		legacyPath: types.QueryParameters, legacyPar: nil, want: one(&pp)}
 	cs = append(cs, pc)
 	for _, sn := range []string{"pricing", "result", "Pricing", "nosuch"} {
 		sn := sn
 		c := qcase{name: "schema", desc: sn, grpcPath: "/irismod.service.Query/Schema", grpcReq: &types.QuerySchemaRequest{SchemaName: sn},
 			grpcResp:  func() proto.Message { return &types.QuerySchemaResponse{} },
-			grpcCanon: func(m proto.Message) []string { return []string{m.(*types.QuerySchemaResponse).Schema} },
+			grpcItems: func(m proto.Message) []interface{} { return one(m.(*types.QuerySchemaResponse).Schema) },
 			direct: func(k keeper.Keeper, ctx sdk.Context) (proto.Message, error) {
-				return k.Schema(sdk.WrapSDKContext(ctx), &types.QuerySchemaRequest{SchemaName: sn})
+				return k.Schema(wrap(ctx), &types.QuerySchemaRequest{SchemaName: sn})
 			},
-			legacyPath: types.QuerySchema, legacyPar: types.QuerySchemaParams{SchemaName: sn},
-			legacyCanon: func(cdc *codec.LegacyAmino, bz []byte) ([]string, error) {
-				var d string
-				if err := cdc.UnmarshalJSON(bz, &d); err != nil {
-					return nil, err
-				}
-				return []string{d}, nil
-			}}
+			legacyPath: types.QuerySchema, legacyPar: types.QuerySchemaParams{SchemaName: sn}}
 		switch sn {
 		case "pricing", "Pricing":
-			c.want = []string{types.PricingSchema}
+			c.want = one(types.PricingSchema)
 		case "result":
-			c.want = []string{types.ResultSchema}
+			c.want = one(types.ResultSchema)
 		default:
 			c.wantErr = true
 		}
 		cs = append(cs, c)
 	}
 	return cs
-}
-
-func canonRequests(cdc *codec.LegacyAmino, bz []byte) ([]string, error) {
-	var d []types.Request
-	if err := cdc.UnmarshalJSON(bz, &d); err != nil {
-		return nil, err
-	}
-	var out []string
-	for i := range d {
-		out = append(out, pm(&d[i]))
-	}
-	return out, nil
 }
 
 func sameSet(a, b []string) bool {
@@ -461,6 +391,49 @@ func sameSet(a, b []string) bool {
 	return true
 }
 
+// legacyItems: the JSON document(s) of a legacy answer, canonicalised.
+func legacyItems(c *qcase, bz []byte) ([]string, error) {
+	if !c.legacyList {
+		j, err := canonJSON(bz)
+		return []string{j}, err
+	}
+	var arr []json.RawMessage
+	if err := json.Unmarshal(bz, &arr); err != nil {
+		return nil, err
+	}
+	out := []string{}
+	for _, e := range arr {
+		j, err := canonJSON(e)
+		if err != nil {
+			return nil, err
+		}
+		out = append(out, j)
+	}
+	return out, nil
+}
+
+func legacyWant(c *qcase, cdc *codec.LegacyAmino) []string {
+	out := []string{}
+	for _, v := range c.want {
+		bz, err := cdc.MarshalJSON(v)
+		if err != nil {
+			out = append(out, "MARSHAL-ERR "+err.Error())
+			continue
+		}
+		j, _ := canonJSON(bz)
+		out = append(out, j)
+	}
+	return out
+}
+
+func grpcWant(c *qcase) []string {
+	out := []string{}
+	for _, v := range c.want {
+		out = append(out, canonItem(v))
+	}
+	return out
+}
+
 func oracleC17(x *Exec, r *StepRec) {
 	if r.Kind != "end" && r.Kind != "commit" {
 		return
@@ -469,30 +442,40 @@ func oracleC17(x *Exec, r *StepRec) {
 	h := x.H()
 	cdc := h.app.LegacyAmino()
 	cases := x.queryCases(s)
-	attrs := func(c *qcase) map[string]string {
+	attrs := func(c *qcase, route string) map[string]string {
 		a := c13Attrs(x, s)
 		a["query"] = c.name
+		if c.addrLen != 0 && c.addrLen != 20 && (route == "legacy" || route == "abci_legacy") {
+			a["address_argument_len_not_20"] = "true"
+		}
 		return a
 	}
-	judge := func(c *qcase, route string, got []string, err error) bool {
+	judge := func(c *qcase, route string, got, want []string, err error) bool {
 		x.stats.inc("probe_query_" + c.name)
 		if c.wantErr {
 			if err == nil {
-				x.viol("C17", c.name+"_"+route, fmt.Sprintf("height %d: query %s(%s) via %s succeeded for a non-existing subject", s.Height, c.name, c.desc, route), attrs(c))
+				x.viol("C17", c.name+"_"+route, fmt.Sprintf("height %d: query %s(%s) via %s succeeded for a non-existing subject", s.Height, c.name, c.desc, route), attrs(c, route))
 				return false
 			}
 			x.stats.inc("probe_query_nonexisting")
 			return true
 		}
 		if err != nil {
-			x.viol("C17", c.name+"_"+route, fmt.Sprintf("height %d: query %s(%s) via %s failed: %v", s.Height, c.name, c.desc, route, err), attrs(c))
+			x.viol("C17", c.name+"_"+route, fmt.Sprintf("height %d: query %s(%s) via %s failed: %v", s.Height, c.name, c.desc, route, err), attrs(c, route))
 			return false
 		}
-		if !sameSet(got, c.want) {
-			x.viol("C17", c.name+"_"+route, fmt.Sprintf("height %d: query %s(%s) via %s returned %d record(s) %q, the store holds %d %q", s.Height, c.name, c.desc, route, len(got), trunc(got), len(c.want), trunc(c.want)), attrs(c))
+		if !sameSet(got, want) {
+			x.viol("C17", c.name+"_"+route, fmt.Sprintf("height %d: query %s(%s) via %s returned %d record(s) %q, the store holds %d %q", s.Height, c.name, c.desc, route, len(got), trunc(got), len(want), trunc(want)), attrs(c, route))
 			return false
 		}
 		return true
+	}
+	canonAll := func(c *qcase, m proto.Message) []string {
+		out := []string{}
+		for _, v := range c.grpcItems(m) {
+			out = append(out, canonItem(v))
+		}
+		return out
 	}
 	if r.Kind == "end" {
 		ctx := h.Ctx()
@@ -502,9 +485,9 @@ func oracleC17(x *Exec, r *StepRec) {
 			resp, err := safeDirect(c, h.app.ServiceKeeper, ctx)
 			var got []string
 			if err == nil {
-				got = c.grpcCanon(resp)
+				got = canonAll(c, resp)
 			}
-			if !judge(c, "grpc", got, err) {
+			if !judge(c, "grpc", got, grpcWant(c), err) {
 				return
 			}
 			var data []byte
@@ -514,15 +497,14 @@ func oracleC17(x *Exec, r *StepRec) {
 			bz, err := legacy(ctx, []string{c.legacyPath}, abci.RequestQuery{Data: data})
 			got = nil
 			if err == nil {
-				got, err = c.legacyCanon(cdc, bz)
+				got, err = legacyItems(c, bz)
 			}
-			if !judge(c, "legacy", got, err) {
+			if !judge(c, "legacy", got, legacyWant(c, cdc), err) {
 				return
 			}
 		}
 		return
 	}
-	// after Commit: the ABCI Query entry point
 	for i := range cases {
 		c := &cases[i]
 		reqBz, _ := proto.Marshal(c.grpcReq)
@@ -536,10 +518,10 @@ func oracleC17(x *Exec, r *StepRec) {
 			if e := proto.Unmarshal(res.Value, resp); e != nil {
 				err = e
 			} else {
-				got = c.grpcCanon(resp)
+				got = canonAll(c, resp)
 			}
 		}
-		if !judge(c, "abci_grpc", got, err) {
+		if !judge(c, "abci_grpc", got, grpcWant(c), err) {
 			return
 		}
 		var data []byte
@@ -551,9 +533,9 @@ func oracleC17(x *Exec, r *StepRec) {
 		if res.Code != 0 {
 			err = fmt.Errorf("code %d: %s", res.Code, res.Log)
 		} else {
-			got, err = c.legacyCanon(cdc, res.Value)
+			got, err = legacyItems(c, res.Value)
 		}
-		if !judge(c, "abci_legacy", got, err) {
+		if !judge(c, "abci_legacy", got, legacyWant(c, cdc), err) {
 			return
 		}
 	}
@@ -574,8 +556,8 @@ func trunc(s []string) []string {
 		if i >= 3 {
 			break
 		}
-		if len(v) > 60 {
-			v = v[:60]
+		if len(v) > 80 {
+			v = v[:80]
 		}
 		out = append(out, v)
 	}
